@@ -3,6 +3,7 @@ import os, random, re
 from vlib import common as C
 
 PROP = "C30"
+FLAVOURS = ["asan", "shar"]
 CHECKER = "make -C /verif/coq -k C30/Properties_C30.vo C30/Extract.vo  (coqc 8.16.1, full .vo)"
 TRUSTED = [
     "Coq 8.16.1 kernel incl. vm_compute; no native_compute",
